@@ -4,6 +4,7 @@ use crate::vm::continuation::Continuation;
 use crate::vm::gc;
 use crate::vm::gc::State;
 use crate::vm::lambda::Lambda;
+use crate::vm::opcode::OpCode;
 use crate::vm::vcell::VCell;
 use log::trace;
 use num::ToPrimitive;
@@ -470,8 +471,14 @@ impl Heap {
     ///
     /// Iterate the lambda byte code and mark any value that contains a reference type
     pub fn mark_lambda(&mut self, lambda: &Lambda) {
-        // Mark every bytecode cell
-        for it in &lambda.bc {
+        // Mark every bytecode cell, except the operands of jumps: those are
+        // offsets into this bytecode, not references into the heap.
+        let mut bc = lambda.bc.iter();
+        while let Some(it) = bc.next() {
+            if matches!(it, VCell::OpCode(OpCode::Jmp | OpCode::Jnt)) {
+                bc.next();
+                continue;
+            }
             self.mark_vcell(it)
         }
 
